@@ -31,7 +31,12 @@ def dec(text):
     return {"k": "fin", "s": 0 if not limbs else (-1 if sign else 1), "n": limbs, "e10": exp}
 
 
-def lines_tokens(text, drop_blocks=()):
+PREFILL = ("Block LOWEN\n     6   1.11111111E-09   # old value\n    61   2.22222222E-09   # another entry\n    62   3.33333333E-09\n"
+           "Block SPhenoLowEnergy\n    20   4.44444444E-10   # (g-2)_e\n    21   5.55555555E-09   # old value\n    22   6.66666666E-15\n    23   7.7E-01\n"
+           "Block GM2CalcOutput\n     0   8.88888888E-09   # old value\n     1   9.9E-10\n     5   1.2E-03   # further entry\n")
+
+
+def lines_tokens(text, drop_blocks=(), drop_slots=()):
     out, cur, skip = [], None, False
     for ln in text.splitlines():
         f = ln.split()
@@ -41,7 +46,7 @@ def lines_tokens(text, drop_blocks=()):
         if g and g[0].upper() in ("BLOCK", "DECAY") and len(g) > 1:
             cur = g[1].upper()
             skip = cur in drop_blocks
-        if not skip:
+        if not skip and not (cur is not None and g and (cur, g[0]) in drop_slots):
             out.append(" ".join(f))
     return out
 
@@ -158,6 +163,29 @@ def run(tier, seed):
             fh.write(json.dumps(ev) + "\n")
             cx.evaluations += 1
             cx.distinct.add((path, json.dumps(o, sort_keys=True)))
+        # inputs that already carry result blocks (as written by a spectrum generator): echo must keep all other lines
+        slots_of = {2: (("LOWEN", "6"),), 3: (("SPHENOLOWENERGY", "21"),), 4: (("GM2CALCOUTPUT", "0"), ("GM2CALCOUTPUT", "1"))}
+        pj = []
+        for bi, (t, path) in enumerate(ins):
+            base = cli.strip_config(open(path, errors="replace").read())
+            for fmt in (2, 3, 4):
+                for unc in (0, 1):
+                    text = base + PREFILL + "Block GM2CalcConfig\n 0 %d\n 5 %d\n" % (fmt, unc)
+                    pp = os.path.join(fdir, "p%02d_f%d_u%d.in" % (bi, fmt, unc))
+                    open(pp, "w").write(text)
+                    pj.append((t, path, fmt, unc, pp, text))
+        with ThreadPoolExecutor(max_workers=16) as ex:
+            pres = list(ex.map(lambda j: cli.run(exe, ["--%s-input-file=%s" % (j[0], j[4])], timeout=120), pj))
+        for (t, path, fmt, unc, pp, text), r in zip(pj, pres):
+            out = r["stdout"]
+            produced = "echo" in cli.classify(out)
+            present = any(name == slots_of[fmt][0][0] and k == slots_of[fmt][0][1] for name, lines in cli.slha_blocks(out) for k, _ in lines)
+            fh.write(json.dumps({"e": "Prefilled", "fmt": fmt, "produced": produced, "slotPresent": present,
+                                 # the uncertainty goes to GM2CalcOutput[1] in every SLHA format (README)
+                                 "echoIn": lines_tokens(text, ("SPINFO", "GM2CALCCONFIG"), slots_of[fmt] + ((("GM2CALCOUTPUT", "1"),) if unc else ())),
+                                 "echoOut": lines_tokens(out, ("SPINFO", "GM2CALCCONFIG"), slots_of[fmt] + ((("GM2CALCOUTPUT", "1"),) if unc else ())),
+                                 "sig": "prefilled/%s/fmt%d/u%d/%s" % (t, fmt, unc, os.path.basename(path))}) + "\n")
+            cx.evaluations += 1
             if len(cx.cov["samples"]) < 3 and o["fmt"] in (0, 4):
                 cx.sample({"input": os.path.basename(path), "options": o, "stdout_kinds": kinds,
                            "stdout_head": out[:160]})
